@@ -630,7 +630,7 @@ func vfRunHostile(t *testing.T, spec *vfSpec, res *vfRes) {
 			sim.teardown()
 			w.waitReaders(10 * time.Second)
 			sim.finalLeakCheck()
-			for _, run := range w.runs {
+			for _, run := range w.allRuns() {
 				// delivery violations after hostile input are C03's: data already delivered / in transit was affected
 				before := res.nviol()
 				vfCheckDelivery(res, "C03", run, drained)
